@@ -90,6 +90,20 @@ def conversion_tu(seed):
     return "".join(lines), n_pairs
 
 
+def cuda_shim_tu():
+    """Fields over CUDA device storage (host shim of the CUDA runtime: declarations and host-memory stand-ins only):
+    conversion from a host field, copy construction, copy assignment, move, view, lookup must compile."""
+    return ('#include "cov.hpp"\n#include <covfie/cuda/backend/primitive/cuda_device_array.hpp>\n'
+            "template <class T, int N, int M> void dev(const covfie::field<covfie::backend::strided<covfie::vector::vector_d<std::size_t,N>,covfie::backend::array<covfie::vector::vector_d<T,M>>>> & h) {\n"
+            "  using D = covfie::backend::strided<covfie::vector::vector_d<std::size_t,N>,covfie::backend::cuda_device_array<covfie::vector::vector_d<T,M>>>;\n"
+            "  static_assert(covfie::concepts::field_backend<D>);\n"
+            "  covfie::field<D> d(h); covfie::field<D> c(d); covfie::field<D> m(std::move(c)); c = d; c = std::move(m);\n"
+            "  typename covfie::field<D>::view_t v(d); typename covfie::field<D>::coordinate_t x{}; (void)v.at(x);\n}\n"
+            "template void dev<float,1,1>(const covfie::field<covfie::backend::strided<covfie::vector::vector_d<std::size_t,1>,covfie::backend::array<covfie::vector::vector_d<float,1>>>> &);\n"
+            "template void dev<double,3,3>(const covfie::field<covfie::backend::strided<covfie::vector::vector_d<std::size_t,3>,covfie::backend::array<covfie::vector::vector_d<double,3>>>> &);\n"
+            "template void dev<float,2,4>(const covfie::field<covfie::backend::strided<covfie::vector::vector_d<std::size_t,2>,covfie::backend::array<covfie::vector::vector_d<float,4>>>> &);\n")
+
+
 class C13:
     pid = "C13"
     engine = "E3"
@@ -160,6 +174,11 @@ class C13:
         programs += 1
         if not ok:
             report("conv", "converting construction between compatible stacks", conv, True, log)
+        cu = cuda_shim_tu()
+        ok, log = e3.syntax_only(cu, ["-I" + core.REPO + "/lib/cuda", "-I" + core.HARNESS + "/cuda_shim"])
+        programs += 1
+        if not ok:
+            report("cuda", "fields over cuda_device_array (host shim): conversion, copy, assignment, view", cu, True, log)
         # 3. the zoo cover: compiled for real and executed
         h, stacks = self.zoo_h(tier, seed)
         for l in stacks:
